@@ -241,7 +241,9 @@ func (w *PollWorker) Start() {
 			}
 
 			// unregister a connection
-			w.connections.rmv(conn, true)
+			if !w.disconnected(conn) {
+				return
+			}
 		default:
 			// Note: this select occurs under the default case in order to
 			// prioritize the connect/disconnect channels, this minimizes the
@@ -262,7 +264,9 @@ func (w *PollWorker) Start() {
 				if !ok {
 					return
 				}
-				w.connections.rmv(conn, true)
+				if !w.disconnected(conn) {
+					return
+				}
 			case mesg, ok := <-w.sq:
 				if !ok {
 					closed = true
@@ -291,6 +295,30 @@ func (w *PollWorker) Start() {
 			}
 		}
 	}
+}
+
+// disconnected unregisters a connection. The connect of a connection is always
+// queued before its disconnect, but the two travel on different channels and
+// select picks among ready channels at random: a listener that connects and
+// hangs up while the worker is busy could be removed before it was added and
+// would then stay registered for good. So whatever is waiting on the connect
+// channel is registered first. Returns false when the connect channel has
+// been closed.
+func (w *PollWorker) disconnected(conn *connection) bool {
+	for pending := true; pending; {
+		select {
+		case c, ok := <-w.connect:
+			if !ok {
+				return false
+			}
+			w.connections.add(c)
+		default:
+			pending = false
+		}
+	}
+
+	w.connections.rmv(conn, true)
+	return true
 }
 
 func (w *PollWorker) Process(mesg *aio.Message) {
